@@ -61,7 +61,8 @@ CHECKS = {
                   'characterisation of the ensemble outcome relation) + schedule-controlled differential / trace-replay correspondence '
                   'with generated failure plans over all sites',
         text='C04_isolated_tree (every tree, every behaviour of the concrete tree: the outcome of a request is an allowed outcome of its own '
-             'input alone, and THE outcome when the denotation is deterministic for it), C04_isolated(+_worker), C04_batch_exact, C04_batch_members_only (a failed batched call fails exactly the members of its '
+             'input alone, and THE outcome when the denotation is deterministic for it), C04_deterministic_tree / C04_innocent_tree, '
+             'C04_isolated(+_worker), C04_batch_exact, C04_batch_members_only (a failed batched call fails exactly the members of its '
              'batch; a request\'s outcome depends on its own input and the batch it shared only), C04_shortcircuit (denotation, all '
              'trees) + _worker/_switch/_ensemble (call / switch / members never see an exception value), C04_ensemble_rules(_failfast) '
              '(exact outcome sets), C04_original_type (the value delivered is the one produced at the failure site; class/args across '
